@@ -54,7 +54,7 @@ _scope(
         (AX, AP, L("x", None, D1)),
         (AX, AP, L("x", None, D2)),
         (AX, AP, L("y", None, D1)),
-        (L("x", None, D3), AP, L("x", None, D1)),
+        (L("x", None, "http://www.w3.org/2001/XMLSchema#"), AP, L("x", None, D1)),
         (AX, AP, L("x", None, XSD_STRING)),
         (AX, AP, L("x", "en")),
     ],
